@@ -37,6 +37,7 @@ WHITELIST = [
     dict(cls=None, fn="ConvertSymbolToSignedInt", params=["unsigned int"]),
     dict(cls=None, fn="MostSignificantBit", params=["unsigned int"]),
     dict(cls=None, fn="AddAsUnsigned", params=["int", "int"]),
+    dict(cls=None, fn="IntSqrt", loop_fuel=64),
     dict(cls=None, fn="ComputeRAnsUnclampedPrecision", params=["int"]),
     dict(cls=None, fn="ComputeRAnsPrecisionFromUniqueSymbolsBitLength", params=["int"]),
     dict(cls=None, fn="mem_put_le16"),
@@ -552,6 +553,7 @@ class Info:
         self.pointwise = False
         self.ret_ct = None
         self.fueled = False         # self-recursive: first parameter `fuel : Nat`, result `Option …`
+        self.optional = False       # contains bounded loops: result `Option …`
         self.nparams = 0
 
 
@@ -649,6 +651,7 @@ class Translator:
         try:
             ft = FuncTranslator(self, decl, pointwise=bool(w.get("pointwise")), suffix=w.get("suffix", ""),
                                 lazy_struct=part)
+            ft.loop_fuel = w.get("loop_fuel")
             if w.get("slice"):
                 ft.select_slice(w["slice"])
             if w.get("chain"):
@@ -708,6 +711,7 @@ class FuncTranslator:
     def __init__(self, tr, decl, pointwise, suffix="", lazy_struct=False):
         self.tr, self.ix, self.decl, self.pointwise = tr, tr.ix, decl, pointwise
         self.suffix = suffix
+        self.loop_fuel = None
         self.slice = None
         self.chain = False
         self.abs_inputs = {}
@@ -971,6 +975,9 @@ class FuncTranslator:
         info.nparams = len(self.parms)
         self.fueled = _contains(self.body, lambda n: n.get("kind") == "CallExpr" and self._callee_id(n) == self.decl["id"])
         info.fueled = self.fueled
+        # `while` / `do` loops (outside pointwise mode): bounded iteration `cWhile fuel`, result `Option …`
+        self.optional = (not self.pointwise) and _contains(self.body, lambda n: n.get("kind") in ("WhileStmt", "DoStmt"))
+        info.optional = self.optional
         for k, p in enumerate(self.parms):
             t = node_type(p)
             nm = p.get("name") or f"arg{k}"
@@ -1134,6 +1141,8 @@ class FuncTranslator:
         if self.fueled:
             head = f"def {info.lean_name} (fuel : Nat){sig} : Option ({rty}) :="
             lines = ["match fuel with", "| 0 => none", "| fuel + 1 =>"] + ["  " + l for l in lines]
+        elif self.optional:
+            head = f"def {info.lean_name}{sig} : Option ({rty}) :="
         else:
             head = f"def {info.lean_name}{sig} : {rty} :="
         info.text = "\n".join([head] + ["  " + l for l in lines])
@@ -1284,7 +1293,7 @@ class FuncTranslator:
                     self.need_input.add(loc)
                     raise _Retry()
                 parts.append(v)
-        if self.fueled:
+        if self.fueled or self.optional:
             return ["some " + ("(" + ", ".join(parts) + ")" if len(parts) > 1 else "(" + parts[0] + ")")]
         return [tuple_text(parts)]
 
@@ -1447,6 +1456,8 @@ class FuncTranslator:
             return self.switch_stmt(s, rest, ctx, k)
         if kind == "ForStmt":
             return self.for_stmt(s, rest, ctx, k)
+        if kind in ("WhileStmt", "DoStmt") and not self.pointwise:
+            return self.loop_stmt(s, rest, ctx, k)
         lines = []
         self.simple(s, ctx, lines)
         pre, self.pre = self.pre, []
@@ -1487,7 +1498,7 @@ class FuncTranslator:
         if cond in ("True", "False"):
             # a compile-time constant of the instantiation (type trait): only the live branch exists
             return self._wrap_pre(pre, self.stmts((th if cond == "True" else el) + rest, ctx, k))
-        if _contains(s, lambda n: n.get("kind") == "ReturnStmt") or self.fueled or pre:
+        if _contains(s, lambda n: n.get("kind") == "ReturnStmt") or self.fueled or self.optional or pre:
             cont = lambda c: self.stmts(rest, c, k)
             tl = self.stmts(th, ctx.copy(), cont)
             elc = self.stmts(el, ctx.copy(), cont)
@@ -1630,6 +1641,68 @@ class FuncTranslator:
             ind += "  "
         bl = self.stmts(rest, ctx, k)
         return lines + [ind + l for l in bl]
+
+    def loop_stmt(self, s, rest, ctx, k):
+        """`while (c) B` / `do B while (c)`: at most `loop_fuel` iterations (`CInt.cWhile`; `none` when the bound is
+        reached with the condition still true).  The loop state is the tuple of the variables assigned in B."""
+        fuel = self.loop_fuel
+        if not fuel:
+            self.fail("loop without a `loop_fuel` bound in the whitelist", s)
+        inner = [c for c in s.get("inner", []) if c.get("kind")]
+        if s["kind"] == "WhileStmt":
+            if len(inner) != 2:
+                self.fail("while with a condition variable", s)
+            cnode, body = inner
+        else:
+            body, cnode = inner
+        if _contains(body, lambda n: n.get("kind") in ("ReturnStmt", "BreakStmt", "ContinueStmt", "GotoStmt", "WhileStmt", "DoStmt", "ForStmt")):
+            self.fail("return/break/continue or a nested loop inside a loop", s)
+        # which locations does the body assign?
+        snap = (set(self.used), self.tmp, self.nassign)
+        trial = ctx.copy()
+        ends = []
+        self.stmts([body], trial, lambda c: (ends.append(c), ["@@"])[1])
+        if len(ends) != 1:
+            self.fail("loop body with branches that are not joined", s)
+        state = [l for l in ctx.vals if ends[0].ver.get(l) != ctx.ver.get(l)]
+        self.used, self.tmp, self.nassign = snap
+        if not state:
+            self.fail("loop that assigns nothing", s)
+        for l in state:
+            if ctx.vals[l] is None:
+                self.fail("loop state variable that is not initialised", s)
+        tys = [ctx.types[l].lean() for l in state]
+
+        def lam(node_is_cond):
+            c = ctx.copy()
+            lines = []
+            for i, l in enumerate(state):
+                nm = c.names[l]
+                lines.append(f"let {nm} : {tys[i]} := {proj('st', i, len(state))}")
+                c.vals[l] = nm
+            if node_is_cond:
+                lines.append(f"decide ({self.cond(cnode, c)})")
+                if self.pre:
+                    self.fail("loop condition with effects", s)
+            else:
+                lines += self.stmts([body], c, lambda cc: [tuple_text([cc.vals[l] for l in state])])
+            if any(x.rstrip().endswith(":=") or x.lstrip().startswith(("if ", "else", "match ", "|")) for x in lines):
+                self.fail("loop body / condition with branches", s)
+            return "(fun st => " + "; ".join(x.strip() for x in lines) + ")"
+        init = tuple_text([ctx.vals[l] for l in state])
+        lines = []
+        if s["kind"] == "DoStmt":
+            # the body once, then the loop
+            tail = []
+            self.tmp += 1
+            return self.stmts([body, {"kind": "WhileStmt", "inner": [cnode, body]}] + rest, ctx, k)
+        self.tmp += 1
+        rn = self._alloc(f"loop{self.tmp}")
+        pre = [f"@@BIND {rn} := cWhile {fuel} {lam(True)} {lam(False)} {init}"]
+        after = []
+        for i, l in enumerate(state):
+            self.assign(ctx, l, proj(rn, i, len(state)), after)
+        return self._wrap_pre(pre, after + self.stmts(rest, ctx, k))
 
     def for_stmt(self, s, rest, ctx, k):
         if not self.pointwise:
@@ -2354,6 +2427,8 @@ class FuncTranslator:
                 return "true", CT("bool")
         # a function of the translated set
         name, callee, info, cparms = self.resolve_callee(n, ctx)
+        if getattr(info, "optional", False):
+            self.fail(f"call of `{name}` which contains loops", n)
         if any(o[0] in ("sink", "log", "stream") for o in info.outs) or info.fueled:
             return self.effect_call(n, ctx, name, callee, info, cparms)
         if len(info.outs) != 1 or info.outs[0][0] != "ret":
